@@ -30,6 +30,11 @@ def nextDay (t : Date) : Date :=
 
 def epoch : Date := ⟨1970, 1, 1⟩
 
+/-- `n`-fold successor -/
+def daysAfter : Nat → Date → Date
+  | 0, t => t
+  | n + 1, t => daysAfter n (nextDay t)
+
 /-- number of leap years in `[1, y]` for `y ≥ 0`, extended to all integers by the same floor formulas:
     the count of multiples of 4, minus multiples of 100, plus multiples of 400 up to `y`. -/
 def leapsUpTo (y : Int) : Int := y / 4 - y / 100 + y / 400
